@@ -337,6 +337,7 @@ func (n *Nodis) notifyBlockingKey(key string) {
 	n.blockingKeysMutex.RLock()
 	cList, ok := n.blockingKeys.Get(key)
 	if ok {
+		verifTrace("bp-push", &key, key, nil, true)
 		cList.ForRange(func(c chan string) bool {
 			verifTrace("bp-notify", c, key, nil, true)
 			select {
@@ -345,6 +346,7 @@ func (n *Nodis) notifyBlockingKey(key string) {
 			}
 			return true
 		})
+		verifTrace("bp-push", &key, key, nil, false)
 	}
 	n.blockingKeysMutex.RUnlock()
 }
